@@ -1,4 +1,5 @@
 import ImathVerif.Lemmas.Rand48
+import ImathVerif.Lemmas.Rand48Indep
 import ImathVerif.Spec.Rand48Field
 import Mathlib.Tactic.Linarith
 import Mathlib.Tactic.Ring
@@ -6,6 +7,7 @@ import Mathlib.Tactic.FieldSimp
 import Mathlib.Tactic.NormNum
 import Mathlib.Analysis.SpecialFunctions.Log.Basic
 import Mathlib.Analysis.SpecialFunctions.Sqrt
+import Mathlib.Analysis.Complex.ExponentialBounds
 /-!
 # C18 — random generators are deterministic, range-correct and rand48-compatible
 
@@ -244,17 +246,137 @@ theorem rand32_low32_only (a b : Nat) (h : a % 2 ^ 32 = b % 2 ^ 32) (op : Op32) 
 
 example : (5 : Nat) % 2 ^ 32 = (2 ^ 32 + 5) % 2 ^ 32 := by decide
 
-/-- determinism: the output sequence is a function of the seed and the call
-sequence alone (true by construction of the pure model; the correspondence check
-is what ties it to the C++ objects). -/
-theorem rand32_deterministic (seed1 seed2 : Nat) (ops : List Op32) (h : seed1 = seed2) :
-    run32 ops (r32Init seed1) = run32 ops (r32Init seed2) := by rw [h]
+/-- sequence version of `rand32_low32_only`: for EVERY list of member calls, two objects whose states agree
+in the low 32 bits return the same values and stay congruent — so the whole output sequence is that of a
+32-bit generator whatever the width of `unsigned long` (LP64 / LLP64 / ILP32). -/
+theorem run32_low32_only (ops : List Op32) (a b : Nat) (h : a % 2 ^ 32 = b % 2 ^ 32) :
+    (run32 ops a).2 = (run32 ops b).2 ∧ (run32 ops a).1 % 2 ^ 32 = (run32 ops b).1 % 2 ^ 32 := by
+  induction ops generalizing a b with
+  | nil => exact ⟨rfl, h⟩
+  | cons op ops ih =>
+    obtain ⟨h1, h2⟩ := rand32_low32_only a b h op
+    obtain ⟨i1, i2⟩ := ih (step32 a op).2 (step32 b op).2 h2
+    rw [run32_cons, run32_cons]
+    exact ⟨by rw [h1, i1], i2⟩
 
-example : run32 [.nexti, .nextb, .nextf] (r32Init 7) = run32 [.nexti, .nextb, .nextf] (r32Init 7) :=
-  rand32_deterministic 7 7 _ rfl
+example : (run32 [.nexti, .nextb, .nextf] 5).2 = (run32 [.nexti, .nextb, .nextf] (2 ^ 32 + 5)).2 :=
+  (run32_low32_only _ 5 (2 ^ 32 + 5) (by decide)).1
 
-theorem rand48_deterministic (seed1 seed2 : Nat) (ops : List Op) (w : World) (h : seed1 = seed2) :
-    run ops { w with user := r48Init seed1 } = run ops { w with user := r48Init seed2 } := by rw [h]
+/-! ## determinism = absence of hidden / shared state
+
+"The sequence is a pure function of the seed" is true of ANY function of the model, so it is not stated as
+`seed1 = seed2 → …`.  What the model can say, and the correspondence transfers to the C++ objects, is which
+state each call reads and writes:
+* after `init (seed)` the sequence does not depend on what the object's storage held before (nor, for
+  `Rand48`, on the file-static state or on any interleaved `lrand48/drand48/srand48` call);
+* the caller's array / `Rand48` object and the static state are independent streams in EVERY interleaving. -/
+
+/-- Rand32: the values returned after `init (seed)` — and the final state — are the same whatever the
+object held before (`st`, `st'` arbitrary, e.g. uninitialised storage or a used generator). -/
+theorem rand32_seq_function_of_seed (seed : Nat) (ops : List Op32) (st st' : Nat) :
+    run32 (.init seed :: ops) st = run32 (.init seed :: ops) st' := by
+  rw [run32_cons, run32_cons]; rfl
+
+example : run32 [.init 7, .nexti, .nextb, .nextf] 0 = run32 [.init 7, .nexti, .nextb, .nextf] 0xdeadbeefdeadbeef :=
+  rand32_seq_function_of_seed 7 _ _ _
+
+/-- one call: a call that is not lrand48/drand48/srand48 leaves the static state unchanged and its result
+and the caller's new state depend on the caller's state only; a call that is leaves the caller's state
+unchanged and depends on the static state only. -/
+theorem step_streams_independent (w w' : World) (op : Op) :
+    (Op.touchesStat op = false → w.user = w'.user →
+      (step w op).2.stat = w.stat ∧ (step w op).1 = (step w' op).1 ∧ (step w op).2.user = (step w' op).2.user) ∧
+    (Op.touchesStat op = true → w.stat = w'.stat →
+      (step w op).2.user = w.user ∧ (step w op).1 = (step w' op).1 ∧ (step w op).2.stat = (step w' op).2.stat) :=
+  ⟨step_nonstatic w w' op, step_static w w' op⟩
+
+/-- in EVERY interleaving of all entry points, the values returned by the calls on the caller's array /
+`Rand48` object (nrand48, erand48, Rand48::{init,nextb,nexti,nextf}) and its final contents do not depend on
+the static state — nor, therefore, on the lrand48/drand48/srand48 calls interleaved with them. -/
+theorem user_stream_independent_of_static (ops : List Op) (w w' : World) (hu : w.user = w'.user) :
+    outsOf (fun op => !Op.touchesStat op) ops w = outsOf (fun op => !Op.touchesStat op) ops w' ∧
+    (run ops w).1.user = (run ops w').1.user := by
+  induction ops generalizing w w' with
+  | nil => exact ⟨rfl, hu⟩
+  | cons op ops ih =>
+    unfold outsOf at ih ⊢
+    rw [run_cons, run_cons]
+    cases h : Op.touchesStat op with
+    | false =>
+      obtain ⟨_, o, u⟩ := step_nonstatic w w' op h hu
+      obtain ⟨i1, i2⟩ := ih _ _ u
+      simp only [List.zip_cons_cons, List.filter_cons, h, Bool.not_false, if_true, List.map_cons]
+      exact ⟨by rw [o, i1], i2⟩
+    | true =>
+      have u1 := (step_static w w op h rfl).1
+      have u2 := (step_static w' w' op h rfl).1
+      obtain ⟨i1, i2⟩ := ih (step w op).2 (step w' op).2 (by rw [u1, u2, hu])
+      simp only [List.zip_cons_cons, List.filter_cons, h, Bool.not_true]
+      exact ⟨i1, i2⟩
+
+/-- symmetric statement: the values returned by lrand48/drand48 (and the final static state) do not depend
+on the caller's arrays / `Rand48` objects or on the calls made on them. -/
+theorem static_stream_independent_of_user (ops : List Op) (w w' : World) (hs : w.stat = w'.stat) :
+    outsOf Op.touchesStat ops w = outsOf Op.touchesStat ops w' ∧ (run ops w).1.stat = (run ops w').1.stat := by
+  induction ops generalizing w w' with
+  | nil => exact ⟨rfl, hs⟩
+  | cons op ops ih =>
+    unfold outsOf at ih ⊢
+    rw [run_cons, run_cons]
+    cases h : Op.touchesStat op with
+    | true =>
+      obtain ⟨_, o, u⟩ := step_static w w' op h hs
+      obtain ⟨i1, i2⟩ := ih _ _ u
+      simp only [List.zip_cons_cons, List.filter_cons, h, if_true, List.map_cons]
+      exact ⟨by rw [o, i1], i2⟩
+    | false =>
+      have u1 := (step_nonstatic w w op h rfl).1
+      have u2 := (step_nonstatic w' w' op h rfl).1
+      obtain ⟨i1, i2⟩ := ih (step w op).2 (step w' op).2 (by rw [u1, u2, hs])
+      simp only [List.zip_cons_cons, List.filter_cons, h]
+      exact ⟨i1, i2⟩
+
+/-- Rand48: after `init (seed)`, the values returned by the object's member calls — in any interleaving with
+calls on the static state — and the object's final state are the same for EVERY prior content of the
+object's storage and EVERY static state (`w`, `w'` arbitrary): the sequence is a function of the seed and
+of the member calls alone. -/
+theorem rand48_seq_function_of_seed (seed : Nat) (ops : List Op) (w w' : World) :
+    outsOf (fun op => !Op.touchesStat op) (.r48init seed :: ops) w =
+      outsOf (fun op => !Op.touchesStat op) (.r48init seed :: ops) w' ∧
+    (run (.r48init seed :: ops) w).1.user = (run (.r48init seed :: ops) w').1.user := by
+  have hu : (step w (.r48init seed)).2.user = (step w' (.r48init seed)).2.user := by
+    obtain ⟨u, st⟩ := w; obtain ⟨u', st'⟩ := w'; simp only [step]
+  obtain ⟨i1, i2⟩ := user_stream_independent_of_static ops _ _ hu
+  unfold outsOf at i1 ⊢
+  rw [run_cons, run_cons]
+  have ho : (step w (.r48init seed)).1 = (step w' (.r48init seed)).1 := by
+    obtain ⟨u, st⟩ := w; obtain ⟨u', st'⟩ := w'; simp only [step]
+  have ht : Op.touchesStat (.r48init seed) = false := rfl
+  simp only [List.zip_cons_cons, List.filter_cons, ht, Bool.not_false, if_true, List.map_cons]
+  exact ⟨by rw [ho]; exact congrArg (_ :: ·) i1, i2⟩
+
+/-- non-vacuity / concrete instance: member calls interleaved with static-state calls, started from two
+different prior object contents and two different static states -/
+example : outsOf (fun op => !Op.touchesStat op) [.r48init 7, .r48nexti, .lrand48, .r48nextf, .srand48 3, .r48nextb]
+      ⟨{ s0 := 1, s1 := 2, s2 := 3 }, staticInit⟩ =
+    outsOf (fun op => !Op.touchesStat op) [.r48init 7, .r48nexti, .lrand48, .r48nextf, .srand48 3, .r48nextb]
+      ⟨{ s0 := 0xffff, s1 := 0xffff, s2 := 0xffff }, { s0 := 9, s1 := 9, s2 := 9 }⟩ :=
+  (rand48_seq_function_of_seed 7 _ _ _).1
+
+/-- what `Rand48::init` really stores (ImathRandom.h: `_state[2] = (unsigned short int) (seed & 0xFFFF)`, the same
+expression as `_state[0]`): the most significant limb is a COPY of the least significant one, and the state is a
+function of the low 32 bits `t` of the scrambled seed only — at most 2^32 of the 2^48 states are reachable by
+seeding, all with `state[2] = state[0]`.  (Not excluded by C18's wording — the sequence IS a pure function of the
+seed — but almost certainly not what was meant: `(seed >> 32) & 0xFFFF` would use the available 48 bits.) -/
+theorem r48Init_limb_duplicated (seed : Nat) :
+    let t := (u64 (seed * 0xa5a573a5) ^^^ 0x5a5a5a5a) % 2 ^ 32
+    (r48Init seed).s2 = (r48Init seed).s0 ∧
+    r48Init seed = { s0 := t % 65536, s1 := t / 65536 % 65536, s2 := t % 65536 } := by
+  intro t
+  have hm : ∀ x : Nat, x % 65536 % 65536 = x % 65536 := fun x => Nat.mod_mod x 65536
+  refine ⟨rfl, ?_⟩
+  simp only [r48Init, and_ffff, u16, Nat.shiftRight_eq_div_pow, hm, t]
+  congr 1 <;> omega
 
 /-! ## nextf (rangeMin, rangeMax): exact arithmetic only -/
 
@@ -378,6 +500,26 @@ theorem gaussRand_real (x y : ℝ) (h0 : 0 < x * x + y * y) (h1 : x * x + y * y 
 
 example : (0 : ℝ) < (1 / 2) * (1 / 2) + (1 / 2) * (1 / 2) ∧ ((1 / 2 : ℝ)) * (1 / 2) + (1 / 2) * (1 / 2) < 1 := by
   norm_num
+
+/-- a priori bound on the Gaussian deviate: `length2` is a `float`, so an accepted `length2 > 0` is at least the
+smallest positive float `2^-149`; then (over ℝ) `|x · sqrt (-2 log l / l)| ≤ sqrt (298 log 2) < 15`.  The residue harness
+checks the measured maximum of `|gaussRand|` against this bound, not merely `isfinite`. -/
+theorem gaussRand_real_bound (x y : ℝ) (h0 : (2 : ℝ) ^ (-149 : ℤ) ≤ x * x + y * y) (h1 : x * x + y * y < 1) :
+    |x * Real.sqrt (-2 * Real.log (x * x + y * y) / (x * x + y * y))| ≤ 15 := by
+  have hp : (0 : ℝ) < (2 : ℝ) ^ (-149 : ℤ) := by positivity
+  have hl : 0 < x * x + y * y := lt_of_lt_of_le hp h0
+  obtain ⟨_, hsq⟩ := gaussRand_real x y hl h1
+  have hlog : Real.log ((2 : ℝ) ^ (-149 : ℤ)) ≤ Real.log (x * x + y * y) := Real.log_le_log hp h0
+  rw [Real.log_zpow] at hlog
+  have h2 := Real.log_two_lt_d9
+  push_cast at hlog
+  set a := x * Real.sqrt (-2 * Real.log (x * x + y * y) / (x * x + y * y)) with ha
+  have hb : a ^ 2 ≤ 225 := by nlinarith
+  exact abs_le.mpr ⟨by nlinarith [sq_nonneg (a - 15), sq_nonneg (a + 15)], by nlinarith [sq_nonneg (a - 15), sq_nonneg (a + 15)]⟩
+
+example : (2 : ℝ) ^ (-149 : ℤ) ≤ (1 / 2) * (1 / 2) + (1 / 2) * (1 / 2) := by
+  have : (2 : ℝ) ^ (-149 : ℤ) ≤ 1 := zpow_le_one_of_nonpos₀ (by norm_num) (by norm_num)
+  linarith
 
 /-! ### non-vacuity of the loop theorems: concrete exiting runs over ℚ / ℝ -/
 
